@@ -257,7 +257,7 @@ PROPS = {
     "C14": dict(
         pkg=".", test="TestVerifC14", model="C14", verdict="C14v", level="other", diff_is_failure=False, stateless=True,
         accept=lambda m, o: m == "-" or m == o,
-        also=["C14d", "C14f", "C14p", "C14k", "C20", "C12r", "C07"],
+        also=["C14d", "C14f", "C14p", "C14k", "C14w", "C20", "C12r", "C07"],
         rule="a case builds a component in a synctest bubble, starts 1-3 operations (closest peers / get / search / put / provide / find "
              "providers / forced refresh) on a scripted network, answers 0-11 of their requests, then calls Close (once or twice "
              "concurrently) while the rest is outstanding; or makes a constructor fail after it has started background work. Required: "
@@ -279,6 +279,10 @@ PROPS = {
                  rule="several goroutines call Close on a fresh keystore (plain / resettable) at the same moment, tens of thousands of rounds; "
                       "none may panic", trusted=["timing decides whether a panic is met; none can be reported falsely"],
                  shards={"quick": 2, "thorough": 4}, gomaxprocs="8"),
+    "C14w": dict(pkg="./provider/dual", test="TestVerifC14w", model="C14w", level="other", diff_is_failure=True, stateless=True,
+                 rule="Close of the dual sweeping-provider wrapper over two real providers, each of which may fail its last write at Close "
+                      "and / or be held inside it: Close returns only when both have finished, with an error iff one of them failed",
+                 trusted=["synctest"], shards={"quick": 2, "thorough": 4}, timeout={"quick": 120, "thorough": 600}),
     # sibling harness of C17: the scheduling functions and the reprovide history called directly (not a property of its own)
     "C17u": dict(pkg="./provider", test="TestVerifC17u", model="C17u", level="other", diff_is_failure=True,
                  rule="a case is a sequence of schedulePrefixNoLock / unscheduleSubsumedPrefixesNoLock calls at arbitrary offsets of the cycle, "
